@@ -503,6 +503,8 @@ class ValueMapping:
             if i == 0:
                 lo = cimtype.minvalue
             else:
+                if valuemap_list[i - 1].endswith('..'):
+                    raise self._adjacent_open_error(valuemap_list, i - 1)
                 _, previous_hi, _ = self._values_tuple(
                     i - 1, valuemap_list, values_list, cimtype)
                 lo = previous_hi + 1
@@ -514,12 +516,25 @@ class ValueMapping:
             if i == len(valuemap_list) - 1:
                 hi = cimtype.maxvalue
             else:
+                if valuemap_list[i + 1].startswith('..'):
+                    raise self._adjacent_open_error(valuemap_list, i)
                 next_lo, _, _ = self._values_tuple(
                     i + 1, valuemap_list, values_list, cimtype)
                 hi = next_lo - 1
         else:
             hi = self._to_int(hi)
         return (lo, hi, values_str)
+
+    def _adjacent_open_error(self, valuemap_list, i):
+        """
+        Return ModelError for the open ends of the ValueMap entries at
+        positions i and i+1 facing each other (cannot be resolved).
+        """
+        return ModelError(
+            _format("The value-mapped {0} has adjacent ValueMap entries whose "
+                    "open range ends (or unclaimed marker) face each other: "
+                    "{1!A}, {2!A}", self._element_str(), valuemap_list[i],
+                    valuemap_list[i + 1]))
 
     def _to_int(self, val_str):
         """
